@@ -42,12 +42,17 @@ type solveCfg struct {
 	models     bool
 }
 
+// firstLine: the first line of a solver's output that is not a warning (z3 prints warnings about
+// rejected quantifier patterns before its verdict).
 func firstLine(s string) string {
-	s = strings.TrimSpace(s)
-	if i := strings.IndexByte(s, '\n'); i >= 0 {
-		return strings.TrimSpace(s[:i])
+	for _, l := range strings.Split(s, "\n") {
+		l = strings.TrimSpace(l)
+		if l == "" || strings.HasPrefix(l, "WARNING") {
+			continue
+		}
+		return l
 	}
-	return s
+	return ""
 }
 
 func runSolver(ctx context.Context, sp solverSpec, file string, timeoutS, seed int) (status, out string, dur float64) {
